@@ -197,8 +197,10 @@ def runAtoms (atoms : List String) : M Bool := do
     | _ => modify fun g => { g with bad := true }
   return true
 
+/-- `r:inf`: an infinite delta is "never" (nothing is queued), i.e. the move `finish done`. -/
 def parseResult (res : String) : Result :=
-  if res.startsWith "r:" then
+  if res == "r:inf" then .done
+  else if res.startsWith "r:" then
     match parseRat (res.drop 2).toString with
     | some d => .resched d
     | none => .done
